@@ -361,7 +361,12 @@ class Theory:
                 if not seq.id.can_depend_on(prev):
                     raise CheckProofException("id %s cannot depend on %s" % (seq.id, prev))
                 try:
-                    prev_ths.append(prf.find_item(prev).th)
+                    prev_item = prf.find_item(prev)
+                    if prev_item.id != prev or prf.find_item(seq.id) is not seq:
+                        # Items are located by position: a citation is only
+                        # meaningful if ids agree with positions.
+                        raise CheckProofException("id %s does not agree with position" % prev)
+                    prev_ths.append(prev_item.th)
                 except ProofStateException:
                     raise CheckProofException("previous item not found")
             
